@@ -1078,25 +1078,31 @@ func repeatMatcher(n *Node, m matcher) matcher {
 }
 
 // DefaultStepLimit bounds the work of one Test call (deterministic, not a clock).
-const DefaultStepLimit = 200_000
+const DefaultStepLimit = 100_000
 
 // Test is `new RegExp(src, "u").test(input)`: does the pattern match at some
 // start index. decided=false means the step budget was exhausted.
 func (p *Prog) Test(in []rune) (matched, decided bool) {
-	s := &state{in: in, caps: make([]int, 2*(p.NCap+1)), limit: DefaultStepLimit}
+	m, d, _ := p.TestSteps(in, DefaultStepLimit)
+	return m, d
+}
+
+// TestSteps is Test with an explicit step limit; it also reports the steps spent.
+func (p *Prog) TestSteps(in []rune, limit int) (matched, decided bool, steps int) {
+	s := &state{in: in, caps: make([]int, 2*(p.NCap+1)), limit: limit}
 	yes := func(int) bool { return true }
 	for start := 0; start <= len(in); start++ {
 		for i := range s.caps {
 			s.caps[i] = -1
 		}
 		if p.fwd(s, start, yes) {
-			return true, true
+			return true, true, s.steps
 		}
 		if s.over {
-			return false, false
+			return false, false, s.steps
 		}
 	}
-	return false, true
+	return false, true, s.steps
 }
 
 // TestString decodes a valid UTF-8 string into code points and calls Test.
